@@ -33,6 +33,7 @@ class Capture:
             for k, v in fb.functions.items():
                 fns[k]['locals'] = sorted(v['locals'])
                 fns[k]['locals_ordered'] = list(v['locals'])      # = the parameters of __create_<name>_fn__
+                fns[k]['locals_values'] = dict(v['locals'])       # what the closure holds
             cap.batches.append({'functions': fns, 'globals': g_in, 'error': None})
             return out
         FunctionBuilder.create_functions = wrapped
